@@ -802,6 +802,26 @@ pub fn e2_jobs(prop: &str, tier: Tier) -> Vec<E2Job> {
             jobs.push(E2Job { label: "thread-local plans, <= 2 ops".into(), scenarios: scen(&tl(2), &[Mode::Dispatch, Mode::Par, Mode::Seq, Mode::Async], &[1]), bounds: b(if q { 2 } else { 3 }), delay: false });
             jobs.push(E2Job { label: "thread-local plans, <= 2 ops, 2 dispatches".into(), scenarios: scen(&tl(2), &[Mode::Dispatch, Mode::Async], &[2]), bounds: b(if q { 1 } else { 2 }), delay: false });
             {
+                // the dispatcher lives on a worker of a FOREIGN pool (of 1 / 2 threads) and is dispatched from there: its
+                // thread-local systems run on that worker, after everything its own pool (user-supplied / default) ran
+                let mut scs = Vec::new();
+                for p in tl(2) {
+                    let info = PlanInfo::of(&p);
+                    if !info.nodes.iter().any(|n| n.kind == crate::spec::Kind::Tl && n.parent.is_none()) || info.nodes.iter().any(|n| n.parent.is_some()) {
+                        continue;
+                    }
+                    for foreign in [1usize, 2] {
+                        for own_user in [Some(2usize), None] {
+                            let mut s = Scenario::plain(p.clone(), Mode::Dispatch, 2);
+                            s.foreign_pool = Some(foreign);
+                            s.user_pool = own_user;
+                            scs.push(s);
+                        }
+                    }
+                }
+                jobs.push(E2Job { label: "thread-local plans (<= 2 ops, no batch) registered, built and dispatched on a worker of a foreign pool of 1 / 2 threads".into(), scenarios: scs, bounds: b(if q { 0 } else { 1 }), delay: false });
+            }
+            {
                 // more thread-local systems than the inline capacity of the list, next to two ordinary systems
                 let tlop = || Op::Tl(crate::spec::SysSpec { name: String::new(), reads: vec![], writes: vec![0], time: 3, deps: vec![] });
                 let mut plans = Vec::new();
@@ -1080,6 +1100,32 @@ fn c11_scenarios(w: usize, n: usize) -> Vec<(String, Scenario)> {
             }
             s.rendezvous = Some((ids.clone(), w as u16));
             v.push((format!("{} / {} / width {} / {} threads", label, mode.label(), w, n), s));
+        }
+    }
+    // a first group of TWO systems (a very short writer of A, then a short reader of A that takes part in the
+    // rendezvous) beside w-1 single-system groups: what the worker of the first group does between its two
+    // systems must not keep a sibling group from running beside the reader
+    if w <= 4 {
+        let mut ops = vec![Op::Sys(crate::spec::SysSpec { name: "pre".into(), reads: vec![], writes: vec![0], time: 1, deps: vec![] })];
+        for i in 1..w {
+            ops.push(Op::Sys(crate::spec::SysSpec { name: format!("s{}", i), reads: vec![], writes: vec![], time: 3, deps: vec![] }));
+        }
+        ops.push(Op::Sys(crate::spec::SysSpec { name: "reader".into(), reads: vec![0], writes: vec![], time: 2, deps: vec![] }));
+        // the layout this relies on: one stage of w groups, the reader in the writer's group
+        let one_stage = crate::obs::layout_of(&ops, &crate::hsys::Ctx::identity_map()).map(|l| l.stages.len() == 1 && l.stages[0].len() == w && l.stages[0].iter().any(|g| g == &vec![0, w])).unwrap_or(false);
+        if one_stage {
+            for user in [true, false] {
+                for (mode, d) in [(Mode::Dispatch, 2u8), (Mode::Async, 2)] {
+                    let mut s = Scenario::plain(ops.clone(), mode, d);
+                    if user {
+                        s.user_pool = Some(n);
+                    } else {
+                        s.default_threads = Some(n);
+                    }
+                    s.rendezvous = Some(((1..=w).collect(), w as u16));
+                    v.push((format!("first group of two systems / {} / width {} / {} threads", mode.label(), w, n), s));
+                }
+            }
         }
     }
     // async: further dispatches issued before the first wait (each blocks the caller until the one in front
